@@ -45,11 +45,19 @@ Proof.
   - intros H. exists k. split; [assumption|apply N.eqb_refl].
 Qed.
 
+Lemma memN_filter_ne k x l : memN k (filter (fun y => negb (N.eqb y x)) l) = negb (N.eqb k x) && memN k l.
+Proof.
+  induction l as [|y l IH]; [rewrite andb_false_r; reflexivity|]. cbn [filter].
+  destruct (N.eqb_spec y x) as [->|Hne]; cbn [negb].
+  - rewrite IH, memN_cons. destruct (N.eqb_spec k x); reflexivity.
+  - rewrite !memN_cons, IH. destruct (N.eqb_spec k y) as [->|]; [|reflexivity].
+    destruct (N.eqb_spec y x); [congruence|reflexivity].
+Qed.
+
 Lemma memN_nodupN k l : memN k (nodupN l) = memN k l.
 Proof.
-  induction l as [|x l IH]; [reflexivity|]. cbn [nodupN]. destruct (memN x l) eqn:E.
-  - rewrite IH, memN_cons. destruct (N.eqb_spec k x) as [->|]; [rewrite E; reflexivity|reflexivity].
-  - rewrite !memN_cons, IH. reflexivity.
+  induction l as [|x l IH]; [reflexivity|]. cbn [nodupN]. rewrite !memN_cons, memN_filter_ne, IH.
+  destruct (N.eqb_spec k x); reflexivity.
 Qed.
 
 Definition hcount (k : N) (l : list frec) : N := fold_right (fun r a => countN k (f_held r) + a) 0 l.
